@@ -46,6 +46,24 @@ func Main(args []string) int {
 				}
 			}
 		}
+		if strings.HasPrefix(*dump, "paths:") {
+			for _, f := range p.Funcs {
+				if strings.Contains(FuncName(f), (*dump)[6:]) {
+					ps, es := WalkPaths(f, 400)
+					fmt.Println("==", FuncName(f), es)
+					for _, l := range FormatPaths(ps, true) {
+						fmt.Println("  ", l)
+					}
+				}
+			}
+		}
+		if strings.HasPrefix(*dump, "sites:") {
+			for _, f := range p.Funcs {
+				if strings.Contains(FuncName(f), (*dump)[6:]) {
+					p.DumpSites(f)
+				}
+			}
+		}
 		if *dump == "funcs" {
 			for _, f := range p.Funcs {
 				fmt.Println(FuncName(f), p.Pos(f.Pos()))
